@@ -163,7 +163,9 @@ public:
    DynamicBitsetIterator( T* dbs, ssize_t startpos):
       DynamicBitsetIteratorBase< T>( dbs, startpos)
    {
-      if (!mpDynBitset->test( mCurrPos))
+      // test() throws for positions behind the end (e.g. empty bitset)
+      if ((static_cast< size_t>( mCurrPos) >= mpDynBitset->size())
+          || !mpDynBitset->test( mCurrPos))
          forward();
    } // DynamicBitsetIterator< T>::DynamicBitsetIterator
 
@@ -275,7 +277,8 @@ public:
    DynamicBitsetReverseIterator( T* dbs, ssize_t startpos):
       DynamicBitsetIteratorBase< T>( dbs, startpos)
    {
-      if (!mpDynBitset->test( mCurrPos))
+      // test() throws for invalid positions (start position -1: empty bitset)
+      if ((mCurrPos < 0) || !mpDynBitset->test( mCurrPos))
          reverse();
    } // DynamicBitsetIterator< T>::DynamicBitsetIterator
 
